@@ -15,6 +15,73 @@ CLS = "FlowIRExperimentConfiguration"
 ALLOWED = {"ExperimentInvalidConfigurationError", "ExperimentMissingConfigurationError"}
 
 
+def check_cycle_detector(ctx, fl) -> None:
+    """R5: the topological sort in propagate_replicate is (in practice) the only place where a dependency cycle becomes an
+    invalid-configuration error, so the graph it sorts must contain every component->component reference."""
+    rule = "C11.R5-cycle-detector-sees-every-edge"
+    fn = fl.func("FlowIR.propagate_replicate")
+    ctx.analysed(fn)
+    cfg = CFG(fn)
+    ctx.paths += cfg.paths_count()
+    sorts = [c for c in ast.walk(fn) if isinstance(c, ast.Call) and (call_name(c) or "").endswith("topological_sort") and c.args]
+    ctx.require(bool(sorts), "anchor missing: topological_sort in propagate_replicate")
+    gname = dotted(sorts[0].args[0])
+    add_edges = match.nodes_calling(cfg, lambda c: last_attr(c) == "add_edge" and dotted(c.func.value) == gname)
+    ok = bool(add_edges)
+    ctx.ob(rule, sorts[0], ok, "the topologically sorted graph '%s' is the one the reference edges are added to" % gname if ok else
+           "no reference edge is added to the graph '%s' that is sorted topologically: cycles are not detected" % gname,
+           construct="topological_sort(%s) / %s.add_edge" % (gname, gname))
+    # the loop over a component's references
+    heads = [n for n in cfg.nodes if n.kind == "for" and isinstance(n.ast, ast.For) and "references" in source.src(n.ast.iter)]
+    ctx.require(len(heads) >= 1, "anchor missing: loop over comp.get('references') in propagate_replicate")
+    head = heads[0]
+    loop = head.ast
+    # the reference classifier and the name that holds the producer's stage
+    stage_names = set()
+    for st in ast.walk(loop):
+        if isinstance(st, ast.Assign) and isinstance(st.value, ast.Call) and last_attr(st.value) == "ParseDataReferenceFull" \
+                and isinstance(st.targets[0], ast.Tuple) and st.targets[0].elts and isinstance(st.targets[0].elts[0], ast.Name):
+            stage_names.add(st.targets[0].elts[0].id)
+    ctx.require(bool(stage_names), "anchor missing: stage, producer, ... = ParseDataReferenceFull(ref, ...) in propagate_replicate")
+
+    def not_component(t: ast.AST) -> Optional[str]:
+        cp = match.compare_parts(t)
+        if cp and isinstance(cp[0], ast.Name) and cp[0].id in stage_names and isinstance(cp[2], ast.Constant) and cp[2].value is None:
+            if isinstance(cp[1], ast.Is):
+                return "T"
+            if isinstance(cp[1], ast.IsNot):
+                return "F"
+        return None
+    tolerated = match.test_nodes(cfg, lambda t: match.polarity(t, lambda e: isinstance(e, ast.Name) and e.id == "ignore_missing_references"))
+    notcomp = match.test_nodes(cfg, not_component)
+    in_loop = lambda n: n.ast is not None and any(n.ast is x for x in ast.walk(loop))
+    tolerated = [(n, l) for n, l in tolerated if in_loop(n)]
+    notcomp = [(n, l) for n, l in notcomp if in_loop(n)]
+    body_first = [m for (m, lab) in head.succ if lab == "iter"]
+    allowed = {(n.id, l) for n, l in tolerated + notcomp}
+    r = cfg.reach(body_first, blocked=add_edges, blocked_edges=allowed, ignore_labels=("exc", "raise"))
+    ok = bool(add_edges) and head.id not in r
+    # which statement lets a reference slip through (diagnosis): a continue reachable without the allowed edges
+    culprit = None
+    if not ok:
+        for n in cfg.nodes:
+            if n.id in r and isinstance(n.ast, ast.Continue) and in_loop(n):
+                culprit = n.ast
+                break
+    ctx.ob(rule, culprit or loop, ok,
+           "every component reference of a component becomes an edge of the graph that is sorted (skips: not a component "
+           "reference, tolerated missing producer)" if ok else
+           "a component reference can be skipped without adding its edge to the graph that is sorted topologically: a cycle "
+           "closed through such a reference is not detected, the workflow loads with a cyclic graph and the components "
+           "wait on each other", construct="for ref in references: add_edge on every path (allowed skips: not-a-component, ignore_missing)")
+    # every component is a node of that graph
+    add_nodes = [c for c in ast.walk(fn) if isinstance(c, ast.Call) and last_attr(c) == "add_node" and dotted(c.func.value) == gname]
+    ok = any(isinstance(a, ast.For) and "flowir_components" in source.src(a.iter) and any(c is x for x in ast.walk(a))
+             for c in add_nodes for a in ast.walk(fn))
+    ctx.ob(rule, add_nodes[0] if add_nodes else fn, ok, "every component is a node of the sorted graph" if ok else
+           "components are no longer all added as nodes of the sorted graph", construct="for comp in flowir_components: %s.add_node" % gname)
+
+
 def run(ctx) -> None:
     from checks.c04 import schema_leaves
     ctx.explanation = (
@@ -29,6 +96,9 @@ def run(ctx) -> None:
     ctx.rule("C11.R2-detectors", "every fault class of the property has a detector that exists and is reachable from the loader")
     ctx.rule("C11.R3-schema-defaults", "every default option is a schema path (a default-completed component is not rejected by the closed schema)")
     ctx.rule("C11.R4-every-component-resolved", "FlowIRConcrete.validate resolves every component inside a catch-all that records the error")
+    ctx.rule("C11.R5-cycle-detector-sees-every-edge", "propagate_replicate adds an edge to the graph it sorts topologically for every "
+             "component reference: a reference is skipped only when it is not a component reference or when a missing "
+             "producer is tolerated; the sorted graph is the one the edges were added to")
     ctx.assume("implicit exceptions (subscripts, library calls) outside try blocks are not modelled")
     ctx.assume("calls are resolved by name (self.<method> within the class, FlowIR.<method>, module functions)")
 
@@ -214,6 +284,9 @@ def run(ctx) -> None:
     ok = bool(val) and ci.every_path_from_passes(ci.entry, val, exits=[ci.exit], ignore_labels=("exc", "except", "raise"))
     ctx.ob("C11.R2-detectors", ini, ok, "_initialize always validates" if ok else "_initialize can finish without calling validate", construct="_initialize -> self.validate(out_errors)")
     # the topological sort's failure is recorded: replicate() is inside _initialize's catch-all (escape set empty, R1)
+
+    # ---------------- R5 -------------------------------------------------------------------------------
+    check_cycle_detector(ctx, fl)
 
     # ---------------- R3 -------------------------------------------------------------------------------
     dcs = fl.func("FlowIR.default_component_structure")
